@@ -1378,6 +1378,21 @@ impl SwarmDriver {
             .collect()
     }
 
+    /// The replication fetcher's in-flight `(key, type)` pairs and queued `(key, type, holder)` entries.
+    #[allow(clippy::type_complexity)]
+    pub fn verif_fetcher_inflight_and_queued(
+        &self,
+    ) -> (
+        Vec<(libp2p::kad::RecordKey, ant_protocol::storage::RecordType)>,
+        Vec<(
+            libp2p::kad::RecordKey,
+            ant_protocol::storage::RecordType,
+            PeerId,
+        )>,
+    ) {
+        crate::replication_fetcher::verif::inflight_and_queued_of(&self.replication_fetcher)
+    }
+
     /// What the record store returns for `key` (`RecordStore::get`).
     pub fn verif_get_local_record(&mut self, key: &libp2p::kad::RecordKey) -> Option<Record> {
         use libp2p::kad::store::RecordStore;
